@@ -510,3 +510,109 @@ func init() {
 	// quiet period sees any attempt made afterwards
 	register(&Scenario{Name: "close-at-any-phase", Prop: "C14", Horizon: time.Hour, Weight: 3, Run: c10Run})
 }
+
+// c10CloseFromHook: the application closes the listener (or the dialer, or the
+// whole socket) from inside its pipe event hook - the one-shot server idiom
+// `p.Listener().Close()` on the first connection. The hook runs on the
+// goroutine that is attaching the pipe (the accept loop, or the dialer's);
+// Close must still return, and afterwards nothing may be left behind.
+func c10CloseFromHook(w *W) {
+	kind := allKinds[w.Choose(simrt.SShape, len(allKinds))]
+	tran := w.simFallback([]string{"inproc", "sim", "tcp", "ipc", "tls+tcp", "ws", "wss"}[w.Choose(simrt.SShape, 7)])
+	on := []mangos.PipeEvent{mangos.PipeEventAttaching, mangos.PipeEventAttached}[w.Choose(simrt.SShape, 2)]
+	what := []string{"endpoint", "socket", "pipe-then-endpoint"}[w.Choose(simrt.SShape, 3)]
+	side := []string{"listen", "dial"}[w.Choose(simrt.SShape, 2)]
+	w.SetShape("kind", kind)
+	w.SetShape("tran", tran)
+	w.SetShape("on", int(on))
+	w.SetShape("close", what)
+	w.SetShape("side", side)
+	w.UseNet(NetCfg{})
+	s, peer := w.Sock(kind), w.Sock(peerKind[kind])
+	defer s.Close()
+	defer peer.Close()
+	addr := w.Addr(tran)
+	done := w.NewEvent()
+	fired := false
+	var hookErr error
+	s.SetPipeEventHook(func(ev mangos.PipeEvent, p mangos.Pipe) {
+		if ev != on || fired {
+			return
+		}
+		fired = true
+		w.Op("hook(%d) on pipe %x closes the %s", int(ev), p.ID(), what)
+		switch what {
+		case "socket":
+			hookErr = s.Close()
+		default:
+			if what == "pipe-then-endpoint" {
+				_ = p.Close()
+			}
+			if l := p.Listener(); l != nil {
+				hookErr = l.Close()
+			} else if d := p.Dialer(); d != nil {
+				hookErr = d.Close()
+			}
+		}
+		done.Set()
+	})
+	if side == "listen" {
+		if err := w.ListenOn(s, addr); err != nil {
+			w.Failf("HARNESS/listen", "%v", err)
+			return
+		}
+		w.Go("peer dials", func() {
+			_ = peer.DialOptions(addr, w.EpOpts(addr, false, map[string]interface{}{mangos.OptionDialAsynch: true, mangos.OptionReconnectTime: 50 * time.Millisecond}))
+		})
+	} else {
+		if err := w.ListenOn(peer, addr); err != nil {
+			w.Failf("HARNESS/listen", "%v", err)
+			return
+		}
+		w.Go("socket dials", func() {
+			_ = s.DialOptions(addr, w.EpOpts(addr, false, map[string]interface{}{mangos.OptionDialAsynch: true, mangos.OptionReconnectTime: 50 * time.Millisecond}))
+		})
+	}
+	for i := 0; i < 100 && !fired; i++ {
+		w.Sleep(time.Millisecond)
+		w.Settle()
+	}
+	if !fired {
+		if side == "dial" && kind != peerKind[peerKind[kind]] {
+			return
+		}
+		w.Failf("HARNESS/attach", "%s over %s (%s side): no pipe event within 100ms", kind, tran, side)
+		return
+	}
+	if !done.Wait(2 * time.Second) {
+		if w.WedgeCheck("C10") {
+			return
+		}
+		w.Failf("C10/close-never-returns", "%s over %s: Close of the %s called from the pipe event hook (event %d, %s side) has not returned after 2s%s", kind, tran, what, int(on), side, w.BlockedReport())
+		return
+	}
+	if hookErr != nil && hookErr != mangos.ErrClosed {
+		w.Failf("C10/close-failed", "Close from the hook returned %v", hookErr)
+		return
+	}
+	w.Probe("close-from-hook")
+	// later calls fail instead of blocking
+	if what == "socket" {
+		c := w.Do("Send(after close from hook)", func() (interface{}, error) { return nil, s.Send([]byte("x")) })
+		if !c.Wait(time.Second) {
+			w.Failf("C10/call-after-close-blocks", "%s: Send after the socket was closed from its hook is still pending", kind)
+			return
+		}
+	}
+	s.Close()
+	peer.Close()
+	w.Sleep(5 * time.Second)
+	w.Settle()
+	w.Census("C10", s, peer)
+}
+
+func init() {
+	register(&Scenario{Name: "close-from-hook", Prop: "C10", Horizon: time.Hour, Weight: 40, Run: c10CloseFromHook})
+	register(&Scenario{Name: "close-from-hook-keeps-working", Prop: "C12", Horizon: time.Hour, Weight: 1, Run: c10CloseFromHook})
+	register(&Scenario{Name: "close-from-hook-lifecycle", Prop: "C13", Horizon: time.Hour, Weight: 1, Run: c10CloseFromHook})
+}
